@@ -34,8 +34,16 @@ def mods():
     return _MOD
 
 
+NAN = float("nan")
+
+
+def nn(x):
+    """JSON null stands for a NaN content (an unoccupied class)."""
+    return NAN if x is None else float(x)
+
+
 def hx(xs):
-    return " ".join(f2h(x) for x in xs)
+    return " ".join(f2h(nn(x)) for x in xs)
 
 
 def err(e):
@@ -207,7 +215,8 @@ class C14(Prop):
         "rebin_conserves_total", "rebin_zero_width_class_lost", "rebin_same_binning_id", "rebin_compose_literal_false",
         "rebin_compose_conserves_total", "rebin_compose_of_refines", "rebin_compose_of_breaks_subset",
         "rebin2d_cell_is_product", "rebin2d_conserves_total", "rebin2d_by_level_name",
-        "combine_sum_conserves")]
+        "combine_sum_conserves", "rebin_nan_default_marks_unoccupied", "rebin_nan_default_conserves_total",
+        "combine_sum_conserves_optional", "rebin_then_combine_conserves")]
     PARTIAL = {}
     RULE = ("case kinds: coll (rows from/to/cycles or range/mean; derived quantities; scale/shift by scalar or Series), "
             "hist (range_histogram / histogram / recorder histogram with edges, class count, IntervalIndex/IntervalArray, "
@@ -223,7 +232,7 @@ class C14(Prop):
         "theorems are over the real numbers: rounding of class shares and weighted sums is not modelled (correspondence uses dyadic inputs; "
         "the oracle uses a relative tolerance of 1e-9 where a sum is re-associated)",
         "re-binning: source classes of zero width are outside the theorems' guard (the code silently drops their content); "
-        "NaN contents, nan_default=True and an integer class count for a two-level histogram are not modelled; a two-level histogram is a list of cells with two interval levels (further non-interval levels are documented as unsupported by the code); LoadHistogram.scale with a negative factor is rejected by pandas (left > right)",
+        "NaN contents are modelled as absent contents (Option; skipped by sums as pandas' groupby-sum / Series.sum do), nan_default=True as 'no occupied source class overlaps'; aggregations other than sum (min/max/mean) and the combination of two-level histograms are checked by the oracle only; an integer class count for a two-level histogram is not modelled; a two-level histogram is a list of cells with two interval levels (further non-interval levels are documented as unsupported by the code); LoadHistogram.scale with a negative factor is rejected by pandas (left > right)",
         "the pandas interval labels '(a, b]' of a histogram are labels only; class membership follows numpy's rule (a <= v < b, last class closed)",
     ]
 
@@ -258,7 +267,7 @@ class C14(Prop):
             yield from self._random_case(rng)
 
     def _random_case(self, rng):
-        kind = rng.choice(["coll", "coll", "hist", "hist", "hist", "hist", "lh", "rebin", "rebin", "rebin", "rebin2d", "rebin2d", "combine"])
+        kind = rng.choice(["coll", "coll", "hist", "hist", "hist", "hist", "lh", "rebin", "rebin", "rebin", "rebin2d", "rebin2d", "combine", "combine", "pipe", "pipe", "combine2d"])
         if kind == "coll":
             n = rng.choice([1, 2, 3, 5, 8])
             with_c = rng.random() < 0.5
@@ -328,23 +337,67 @@ class C14(Prop):
             yield self._rebin_case(rng)
         elif kind == "rebin2d":
             yield self._rebin2d_case(rng)
+        elif kind == "pipe":
+            yield self._pipe_case(rng)
+        elif kind == "combine2d":
+            ax = sorted({dy(rng, 0, 8, 2) for _ in range(rng.randint(2, 3))} | {0.0, 8.0})
+            ay = sorted({dy(rng, -4, 4, 2) for _ in range(rng.randint(2, 3))} | {-4.0, 4.0})
+            ncell = (len(ax) - 1) * (len(ay) - 1)
+            k = rng.choice([2, 2, 3])
+            hists = [[(None if rng.random() < 0.3 else float(rng.randint(0, 80)) / 2) for _ in range(ncell)] for _ in range(k)]
+            yield {"kind": "combine2d", "names": rng.choice([["range", "mean"], ["from", "to"]]), "ax": ax, "ay": ay, "hists": hists,
+                   "reversed": [rng.random() < 0.25 for _ in range(k)]}
         else:
             k = rng.choice([1, 2, 3, 4])
             hists = []
             pool = [[dy(rng, -4, 4, 2), 0.0] for _ in range(4)]
             pool = [[p[0], p[0] + rng.choice([0.5, 1.0, 2.0])] for p in pool]
-            for _ in range(k):
-                m = rng.choice([0, 1, 2, 3, 5])
-                h = []
-                for _ in range(m):
-                    if rng.random() < 0.6:
-                        l, r = rng.choice(pool)
-                    else:
-                        l = dy(rng, -4, 4, 2)
-                        r = l + rng.choice([0.5, 1.0, 2.0])
-                    h.append([l, r, float(rng.randint(0, 40)) / 4])
-                hists.append(h)
+            with_nan = rng.random() < 0.5
+
+            def val():
+                return None if with_nan and rng.random() < 0.35 else float(rng.randint(0, 40)) / 4
+            if rng.random() < 0.45:
+                # all histograms on one identical index (e.g. after a common re-binning)
+                m = rng.choice([1, 2, 3, 5])
+                br = sorted({dy(rng, -4, 8, 2) for _ in range(m + 1)} | {-4.0, 8.0})
+                cls = [[br[i], br[i + 1]] for i in range(len(br) - 1)]
+                hists = [[[c[0], c[1], val()] for c in cls] for _ in range(max(k, 2))]
+            else:
+                for _ in range(k):
+                    m = rng.choice([0, 1, 2, 3, 5])
+                    h = []
+                    for _ in range(m):
+                        if rng.random() < 0.6:
+                            l, r = rng.choice(pool)
+                        else:
+                            l = dy(rng, -4, 4, 2)
+                            r = l + rng.choice([0.5, 1.0, 2.0])
+                        h.append([l, r, val()])
+                    hists.append(h)
             yield {"kind": "combine", "hists": hists}
+
+    def _pipe_case(self, rng):
+        """2-3 histograms with their own binnings -> one common (wider) binning, nan_default True/False -> combine."""
+        k = rng.choice([2, 2, 3])
+        parts = []
+        for _ in range(k):
+            lo = dy(rng, 0, 6, 2)
+            m = rng.randint(1, 4)
+            br = sorted({lo + rng.randint(0, 12) / 2 for _ in range(m)} | {lo, lo + rng.choice([1.0, 2.0, 4.0, 6.0])})
+            parts.append([[br[i], br[i + 1], (None if rng.random() < 0.15 else float(rng.choice([0, 1, 2, 5, 8, 20, 50, 100])))]
+                          for i in range(len(br) - 1)])
+        lo = min(p[0][0] for p in parts)
+        hi = max(p[-1][1] for p in parts)
+        cover = rng.random() < 0.85
+        a = lo - rng.choice([0.0, 0.0, 1.0]) if cover else lo + 0.5
+        b = hi + rng.choice([0.0, 0.0, 1.5])
+        n = rng.randint(1, 8)
+        style = rng.random()
+        if style < 0.5:
+            target = [a + (b - a) * i / n for i in range(n + 1)]
+        else:
+            target = sorted({a + (b - a) * rng.randint(1, 31) / 32 for _ in range(n - 1)} | {a, b})
+        return {"kind": "pipe", "parts": parts, "target": target, "nan_default": rng.random() < 0.7}
 
     def _rebin2d_case(self, rng):
         """Two interval levels; target as MultiIndex (levels in the histogram's order or swapped) or one IntervalIndex."""
@@ -394,9 +447,12 @@ class C14(Prop):
             for _ in range(m):
                 l = dy(rng, -4, 12, 4)
                 src.append([l, l + rng.choice([0.25, 0.5, 1.0, 3.0, 6.5]), float(rng.choice([0, 1, 2, 5, 10, 40, 7]))])
+        if style == "breaks" and len(src) > 1 and rng.random() < 0.25:
+            rng.shuffle(src)          # the classes of a histogram need not be stored in increasing order
+            style = "arb"
         lo = min(s[0] for s in src)
         hi = max(s[1] for s in src)
-        tk = rng.choice(["breaks", "breaks", "breaks", "count", "single", "same", "refine"])
+        tk = rng.choice(["breaks", "breaks", "breaks", "count", "single", "same", "refine"] + (["count", "count"] if style == "arb" else []))
         case = {"kind": "rebin", "src": src, "src_style": style}
         if tk == "count":
             case["target"] = {"t": "count", "n": rng.choice([1, 1, 2, 3, 7])}
@@ -486,6 +542,13 @@ class C14(Prop):
                     tl.reverse()
             cells = " ".join(hx(c) for c in self._cells(case))
             return [f"c14 rebin2d {n1} {n2} " + " ".join(f"{nm} {len(b)} {hx(b)}" for nm, b in tl) + " " + cells]
+        if k == "pipe":
+            hs = case["parts"]
+            t = case["target"]
+            return [f"c14 pipe {1 if case['nan_default'] else 0} {len(t)} {hx(t)} {len(hs)} "
+                    f"{' '.join(str(len(h)) for h in hs)} {' '.join(hx(b) for h in hs for b in h)}"]
+        if k == "combine2d":
+            return []
         if k == "combine":
             hs = case["hists"]
             return [f"c14 combine {len(hs)} {' '.join(str(len(h)) for h in hs)} {' '.join(hx(b) for h in hs for b in h)}".rstrip()]
@@ -642,8 +705,21 @@ class C14(Prop):
                 return [err(e)]
             mat = self._matrix2(case, r, bx, by)
             return [hx(mat)] if mat is not None else ["err:classes"]
+        if k == "combine2d":
+            return []
+        if k == "pipe":
+            try:
+                parts, comb = self._run_pipe(case)
+            except Exception as e:
+                self._count("errors", "pipe:" + type(e).__name__)
+                return [err(e)]
+            self._count("bins", "pipe:nan_default=" + str(case["nan_default"]))
+            return [";".join(hx(p.to_numpy(dtype=float)) for p in parts) + ";" +
+                    " ".join(hx([iv.left, iv.right, v]) for iv, v in zip(comb.index, comb.to_numpy(dtype=float)))]
         if k == "combine":
-            hs = [pd.Series([b[2] for b in h], index=pd.IntervalIndex.from_arrays([b[0] for b in h], [b[1] for b in h]), dtype=float)
+            if any(b[2] is None for h in case["hists"] for b in h):
+                self._count("bins", "combine:with-nan")
+            hs = [pd.Series([nn(b[2]) for b in h], index=pd.IntervalIndex.from_arrays([b[0] for b in h], [b[1] for b in h]), dtype=float)
                   for h in case["hists"]]
             try:
                 r = m["combine"](hs, "sum")
@@ -654,6 +730,16 @@ class C14(Prop):
                 self._count("errors", "combine:" + type(e).__name__)
                 return [err(e)]
         return []
+
+    @staticmethod
+    def _series1(h):
+        return pd.Series([nn(b[2]) for b in h], index=pd.IntervalIndex.from_arrays([b[0] for b in h], [b[1] for b in h]), dtype=float)
+
+    def _run_pipe(self, case):
+        m = mods()
+        target = pd.IntervalIndex.from_breaks(case["target"])
+        parts = [m["rebin"](self._series1(h), target, nan_default=bool(case["nan_default"])) for h in case["parts"]]
+        return parts, m["combine"](parts, "sum")
 
     def _apply_operand(self, case, lc):
         op = case["operand"]
@@ -737,7 +823,7 @@ class C14(Prop):
     def compare(self, case, model_out, impl_out):
         if len(model_out) != len(impl_out):
             return f"length {len(model_out)} vs {len(impl_out)}"
-        tol = case["kind"] in ("rebin", "rebin2d", "combine")
+        tol = case["kind"] in ("rebin", "rebin2d", "combine", "pipe")
         for i, (a, b) in enumerate(zip(model_out, impl_out)):
             if a == b:
                 continue
@@ -1038,30 +1124,111 @@ class C14(Prop):
                 return (f"the level order of the target changes the result: {res['same']} vs {res['swapped']}", "rebin2d-level-order")
         return None
 
-    def _oracle_combine(self, case):
+    @staticmethod
+    def _skipna(method, vals):
+        """What an aggregation that skips unoccupied (NaN) classes gives for the values of one class."""
+        v = [x for x in vals if x == x]
+        if method == "sum":
+            return float(sum(v))
+        if not v:
+            return NAN
+        return {"min": min(v), "max": max(v), "mean": sum(v) / len(v)}[method]
+
+    def _check_combined(self, what, hs, keyed_parts, extract):
+        """keyed_parts: per histogram a dict class -> content (NaN allowed); extract(result) -> dict class -> content."""
         m = mods()
-        hs = [pd.Series([b[2] for b in h], index=pd.IntervalIndex.from_arrays([b[0] for b in h], [b[1] for b in h]), dtype=float)
-              for h in case["hists"]]
-        try:
-            r = m["combine"](hs, "sum")
-        except Exception as e:
-            return (f"combine_histogram raises {type(e).__name__}: {e}", "combine-error")
-        total = float(sum(b[2] for h in case["hists"] for b in h))
-        if not core.close(float(r.sum()) if len(r) else 0.0, total, rtol=1e-9):
-            return (f"combined total {float(r.sum())} != grand total {total}", "combine-total")
-        want = {}
-        for h in case["hists"]:
-            for b in h:
-                want[(b[0], b[1])] = want.get((b[0], b[1]), 0.0) + b[2]
-        got = {(iv.left, iv.right): float(v) for iv, v in zip(r.index, r.to_numpy(float))} if len(r) else {}
-        if set(got) != set(want) or any(not core.close(got[k], want[k], rtol=1e-9) for k in want):
-            return (f"combined classes {got} != per-class sums {want}", "combine-class")
+        keys = []
+        for kp in keyed_parts:
+            for k in kp:
+                if k not in keys:
+                    keys.append(k)
+        for method in ("sum", "min", "max", "mean"):
+            try:
+                r = m["combine"](hs, method)
+            except Exception as e:
+                return (f"combine_histogram({what}, {method!r}) raises {type(e).__name__}: {e}", "combine-error")
+            got = extract(r) if len(r) else {}
+            want = {k: self._skipna(method, [x for kp in keyed_parts for kk, x in kp.items() if kk == k]) for k in keys}
+            if method == "sum":
+                total = float(sum(x for kp in keyed_parts for x in kp.values() if x == x))
+                gt = float(np.nansum(r.to_numpy(dtype=float))) if len(r) else 0.0
+                if not core.close(gt, total, rtol=1e-9):
+                    return (f"{what}: combined grand total {gt} != sum of the totals of the parts {total} (NaN = unoccupied)", "combine-total")
+            if set(got) != set(want):
+                return (f"{what} ({method}): combined classes {sorted(got)} != classes of the parts {sorted(want)}", "combine-class")
+            for k in want:
+                g, w = got[k], want[k]
+                if not ((g != g and w != w) or core.close(g, w, rtol=1e-9)):
+                    return (f"{what} ({method}): class {k} holds {g}, the parts that have a value there give {w}", "combine-class")
         return None
+
+    def _oracle_combine(self, case):
+        hs = [self._series1(h) for h in case["hists"]]
+        parts = []
+        for h in case["hists"]:
+            d = {}
+            for b in h:      # a histogram may list a class twice: its contents add up / aggregate like separate parts
+                d.setdefault((b[0], b[1]), []).append(nn(b[2]))
+            parts.append(d)
+        # flatten duplicates inside one histogram into separate pseudo-parts
+        flat = []
+        for d in parts:
+            depth = max([len(v) for v in d.values()] + [0])
+            for i in range(depth):
+                flat.append({k: v[i] for k, v in d.items() if len(v) > i})
+        return self._check_combined("histograms", hs, flat,
+                                    lambda r: {(iv.left, iv.right): float(v) for iv, v in zip(r.index, r.to_numpy(dtype=float))})
+
+    def _oracle_combine2d(self, case):
+        ax, ay = case["ax"], case["ay"]
+        keys = [(ax[i], ax[i + 1], ay[j], ay[j + 1]) for i in range(len(ax) - 1) for j in range(len(ay) - 1)]
+        hs, parts = [], []
+        for vals, rev in zip(case["hists"], case["reversed"]):
+            kv = list(zip(keys, [nn(v) for v in vals]))
+            if rev:
+                kv.reverse()
+            ix = pd.MultiIndex.from_arrays([pd.IntervalIndex.from_arrays([k[0] for k, _ in kv], [k[1] for k, _ in kv]),
+                                            pd.IntervalIndex.from_arrays([k[2] for k, _ in kv], [k[3] for k, _ in kv])],
+                                           names=case["names"])
+            hs.append(pd.Series([v for _, v in kv], index=ix, dtype=float))
+            parts.append(dict(kv))
+        n1, n2 = case["names"]
+
+        def extract(r):
+            a, b = r.index.get_level_values(n1), r.index.get_level_values(n2)
+            return {(float(xl), float(xr), float(yl), float(yr)): float(v)
+                    for xl, xr, yl, yr, v in zip(a.left, a.right, b.left, b.right, r.to_numpy(dtype=float))}
+        return self._check_combined("two-level histograms", hs, parts, extract)
+
+    def _oracle_pipe(self, case):
+        target = case["target"]
+        try:
+            parts, comb = self._run_pipe(case)
+        except Exception as e:
+            return (f"rebin to a common binning + combine raises {type(e).__name__}: {e}", "pipe-error")
+        keyed = []
+        for h, p in zip(case["parts"], parts):
+            vals = p.to_numpy(dtype=float)
+            pres = [b for b in h if b[2] is not None]
+            covered = target[0] <= h[0][0] and target[-1] >= h[-1][1]
+            tot = float(sum(b[2] for b in pres))
+            if covered and not core.close(float(np.nansum(vals)), tot, rtol=1e-9):
+                return (f"re-bin (nan_default={case['nan_default']}) of {h} to {target}: total {float(np.nansum(vals))} != {tot}", "rebin-total")
+            for j, v in enumerate(vals):
+                occupied = any(b[0] < target[j + 1] and target[j] < b[1] for b in pres)
+                unocc_ok = (v != v) if case["nan_default"] else (v == 0.0)
+                if (not occupied and not unocc_ok) or (occupied and v != v):
+                    return (f"re-bin (nan_default={case['nan_default']}): class ({target[j]}, {target[j + 1]}] holds {v}; "
+                            f"occupied by a source class with a value: {occupied}", "rebin-nan-default")
+            keyed.append({(target[j], target[j + 1]): float(v) for j, v in enumerate(vals)})
+        return self._check_combined("re-binned histograms", parts, keyed,
+                                    lambda r: {(iv.left, iv.right): float(v) for iv, v in zip(r.index, r.to_numpy(dtype=float))})
 
     # -------------------------------------------------------------- shrinking
     def shrink(self, case, still_fails):
         cur = json.loads(json.dumps(case))
-        key = {"coll": "rows", "hist": "rows", "rebin": "src", "lh": "classes"}.get(cur["kind"])
+        key = {"coll": "rows", "hist": "rows", "rebin": "src", "lh": "classes", "pipe": "parts", "combine": "hists",
+               "combine2d": "hists"}.get(cur["kind"])
         if cur["kind"] in ("coll", "hist") and cur.get("idx"):
             pass
         if key is None:
@@ -1072,7 +1239,7 @@ class C14(Prop):
             for i in range(len(cur[key])):
                 cand = json.loads(json.dumps(cur))
                 del cand[key][i]
-                for par in ("keys", "vals", "idx"):
+                for par in ("keys", "vals", "idx", "reversed"):
                     if cand.get(par):
                         del cand[par][i]
                 try:
